@@ -81,9 +81,26 @@ def expr_of(x):
         return z3.IntVal(int(x))
 
 
-def assume(cond_expr):
+class AssumptionInfeasible(Exception):
+    """an assumption added by a stub/harness contradicts the current path: the
+    path would be vacuous.  Surfaces as a harness error (inconclusive)."""
+
+
+def assume(cond_expr, check=False):
     with NoTracing():
-        context_statespace().add(cond_expr)
+        sp = context_statespace()
+        if check:
+            STATS["queries"] += 0
+            if not sp.is_possible(cond_expr):
+                raise AssumptionInfeasible(str(cond_expr)[:200])
+        sp.add(cond_expr)
+
+
+def path_feasible():
+    """safety net against vacuous paths: is the path condition still satisfiable?"""
+    with NoTracing():
+        sp = context_statespace()
+        return sp.is_possible(z3.BoolVal(True))
 
 
 def fork(cond_expr):
